@@ -364,7 +364,7 @@ var (
 	patCache = map[string]map[int][2]string{}
 )
 
-var patAlphabet = []string{"a", "b", "c", "é", "1", "-", "Z", "%", "\r"}
+var patAlphabet = []string{"a", "b", "c", "é", "1", "-", "Z", "%", "\r", "\n"}
 
 // patternSamples returns, per rune length 0..5, a matching and a non-matching string ("" entries marked by \x00 when none).
 func patternSamples(pat string) map[int][2]string {
